@@ -51,12 +51,55 @@ def gen_cases(chk):
             elif r < 0.55: pieces += [0x25, 0x30, rng.choice(b"aAdD")]
             else: pieces.append(rng.choice(UNESC_ALPHA + [rng.randint(1, 255)]))
         unesc.append("unesc %s %d %d 1" % (enc(pieces), rng.randint(0, 1), rng.randint(0, 3)))
+    # long strings: lengths around the limits of narrow counters (256, 4096, 65536), plain, fully escaped, break-heavy, triplet-heavy
+    for n in ((255, 256, 257, 1025) if tier == "quick" else (255, 256, 257, 511, 512, 1025, 4096)):
+        for k, unit in enumerate(([0x61], [0x20], [0x0d, 0x0a], [0xff], [0x61, 0x20, 0x0d])):
+            t = (unit * (n // len(unit) + 1))[:n]
+            esc.append("esc %s %d %d %d" % (enc(t), (k + n) % 2, (k // 2 + n) % 2, n % 2))
+        for k, unit in enumerate(([0x25, 0x34, 0x31], [0x25, 0x30, 0x44, 0x25, 0x30, 0x41], [0x2b], [0x25], [0x61])):
+            t = (unit * (n // len(unit) + 1))[:n]
+            unesc.append("unesc %s %d %d 1" % (enc(t), (k + n) % 2, (k + n) % 4))
     return esc, unesc
+
+ESC_UNITS = ([0x61], [0x20], [0x0d, 0x0a], [0xff], [0x61, 0x20, 0x0d], [0x7e, 0x2f])
+UNESC_UNITS = ([0x25, 0x34, 0x31], [0x25, 0x30, 0x44, 0x25, 0x30, 0x41], [0x2b], [0x25, 0x67], [0x61], [0x25, 0x30, 0x64, 0x78])
+
+def check_long(chk, exes, mdl):
+    """Strings far longer than any counter of a narrow type could hold (32 767 .. 131 073 characters).  Every string is a whole number of
+    repetitions of a unit on which escaping / unescaping is a homomorphism (the unit ends where no state is carried over: after LF,
+    or before a character that is neither LF nor part of a triplet), so the expected result is the model's result on ONE unit,
+    repeated; the model itself is not run on the long strings."""
+    sizes = (32767, 32768, 65535, 65536, 65537) if chk.tier == "quick" else (32767, 32768, 32769, 65535, 65536, 65537, 131071, 131073, 262145)
+    unit_rq = []; cases = []
+    for n in sizes:
+        for ui, u in enumerate(ESC_UNITS):
+            k = n // len(u); stp, nb = (ui + n) % 2, (ui // 2 + n) % 2
+            cases.append(("esc %s %d %d %d" % (enc(u * k), stp, nb, n % 2), k)); unit_rq.append("esc %s %d %d 0" % (enc(u), stp, nb))
+        for ui, u in enumerate(UNESC_UNITS):
+            k = n // len(u); p, b = (ui + n) % 2, (ui + n) % 4
+            cases.append(("unesc %s %d %d 1" % (enc(u * k), p, b), k)); unit_rq.append("unesc %s %d %d 1" % (enc(u), p, b))
+    unit = lib.run_lines(mdl, unit_rq)
+    reqs = [c[0] for c in cases]
+    for name in ("A", "W", "A_asan"):
+        if chk.tier == "quick" and name == "A_asan": continue
+        impl = lib.run_lines(exes[name], reqs, chunks=min(lib.NCPU, len(reqs)))
+        chk.cov["evaluations"] += len(reqs)
+        for (rq, k), o, um in zip(cases, impl, unit):
+            of = o.split(); uf = um.split()
+            short = {"request": rq[:120] + " ... (%d repetitions of the unit)" % k, "unit_model": um, "impl": o[:200] + " ...", "build": name}
+            if len(of) != 4 or of[3] != "1" or o.startswith("!"):
+                chk.violation("%s of a long string: malformed/unsafe result or crash (%s build)" % (rq.split()[0], name), short); continue
+            want = (dec(uf[2]) or []) * k
+            got = dec(of[2]) or []
+            if got != want or int(of[1]) != len(want):
+                chk.violation("%s of a string of %d characters is not the per-unit result repeated (%d characters expected, %d obtained)" % (rq.split()[0], k * len(dec(rq.split()[1]) or []) // max(k, 1), len(want), len(got)), short)
+    return len(reqs)
 
 def run(chk):
     proofs = lib.check_proofs(PID)
     exes = lib.build_impl()
     mdl = lib.build_model()
+    nlong = check_long(chk, exes, mdl)
     esc, unesc = gen_cases(chk)
     reqs = esc + unesc
     model = lib.run_lines(mdl, reqs)
